@@ -739,6 +739,34 @@ func (rn *c17Runner) run() (obs map[string]any, coq string, tags []string, nontr
 		tags = append(tags, "instance-changed")
 	}
 
+	okExec, failExec := false, false
+
+	for raw := range rn.istr {
+		if strings.HasPrefix(raw, "err=ok") {
+			okExec = true
+		} else {
+			failExec = true
+		}
+	}
+
+	if okExec {
+		tags = append(tags, "exec:some-succeed")
+	}
+
+	if failExec {
+		tags = append(tags, "exec:some-fail")
+	}
+
+	tags = append(tags, fmt.Sprintf("behaviours:%d", min(len(rn.istr), 5)))
+
+	for _, in := range insts {
+		if len(in.chain) >= 2 {
+			tags = append(tags, "variant-of-variant")
+
+			break
+		}
+	}
+
 	if rn.unstable {
 		tags = append(tags, "reference-unstable")
 	}
